@@ -39,8 +39,7 @@ def plan(tier):
 def required(tier):
     base = ["records_judged", "cigar_replays_ok", "reverse_step_records", "fragmented_inputs", "long_indel_reads",
             "gotoh_optimal_confirmed", "cost_strictly_improved", "post:extract_path", "multi_core_runs", "supplementary_records"]
-    if tier == "thorough":
-        base += ["span_60000_exact", "passthrough_records"]
+    base += ["span_60000_exact", "passthrough_records", "threshold_straddling_records"]
     return base
 
 
@@ -53,7 +52,7 @@ def setup(ctx):
 def run_case(ctx, rng, index, casedir):
     sit = collections.Counter()
     viol = []
-    big_case = ctx.tier == "thorough" and index % 40 == 0
+    big_case = (ctx.tier == "thorough" and index % 40 == 0) or (ctx.tier == "quick" and index == 0)
     g = rgfa.gen_rgfa(rng, size="medium" if not big_case else "large", id_style=rng.choice(["s", "name"]))
     if big_case:
         # long nodes so that a 60 kb path exists
@@ -75,8 +74,30 @@ def run_case(ctx, rng, index, casedir):
         w = [(n, ">") for n in g.nodes]
         for k, (span, nm) in enumerate([(60000, "exact60000"), (60001, "pass60001"), (rng.randint(5000, 20000), "long")]):
             # cheap near-identical reads
-            r = greads.make_read_record(g, rng, w, f"{nm}_{index}", tags="safe", rate=0.0005, frag=False, exact_span=span)
+            # the two boundary probes are gap-free (read span == path span), the third one has edits
+            r = greads.make_read_record(g, rng, w, f"{nm}_{index}", tags="safe", rate=0.0005 if nm == "long" else 0.0, frag=False, exact_span=span)
             recs.append(r)
+        # read span and path span on opposite sides of the 60 000 threshold (net insertion / deletion)
+        pseq = rgfa.spell_walk(g, w)
+        for nm, pspan, kind in (("ins_straddle", 59_990, "I"), ("del_straddle", 60_010, "D")):
+            ps = rng.randint(0, len(pseq) - pspan)
+            target = pseq[ps:ps + pspan]
+            if kind == "I":
+                seg = target[:30000] + rgfa.rand_seq(rng, 20) + target[30000:]
+                ops = [(12000, "="), (18000, "="), (20, "I"), (pspan - 30000, "=")]  # fragmented, valid
+            else:
+                seg = target[:30000] + target[30020:]
+                ops = [(30000, "="), (20, "D"), (pspan - 30020, "=")]
+            r = greads.ReadRec()
+            r.shared_with = r.owner = None
+            r.name, r.read, r.qs, r.qe, r.ps, r.pe, r.walk, r.target = f"{nm}_{index}", seg, 0, len(seg), ps, ps + pspan, w, target
+            r.true_ops = greads.merge(ops)
+            r.in_cigar = greads.cigar_str(ops)
+            cols = [r.name, str(len(seg)), "0", str(len(seg)), "+", rgfa.path_str(w), str(len(pseq)), str(ps), str(ps + pspan),
+                    str(sum(n for n, o in ops if o == "=")), str(sum(n for n, _ in ops)), "60", "tp:A:P", f"cg:Z:{r.in_cigar}"]
+            r.line = "\t".join(cols)
+            recs.append(r)
+            sit["threshold_straddling_records"] += 1
     else:
         n = rng.randint(3, 25)
         walks = ggaf.make_walks(g, rng, n, maxlen=rng.choice([2, 5, 10]), forced=True)
